@@ -16,13 +16,13 @@ from ..core import Part, Result, scratch_dir
 ID = "C11"
 RULE = (
     "history: Hypothesis rule-based state machine; state = one Python process; rule run(i) executes "
-    "pair i of a pool of 18 (input, options) pairs through the programmatic entry point "
+    "pair i of a pool of 22 (input, options) pairs through the programmatic entry point "
     "(main.run_pdb2pqr): peptides, multi-chain contact structures with waters, DNA/RNA, repair, "
     "--assign-only, --ffout/--keep-chain/--whitespace, real PROPKA titration, ligand complex, mmCIF "
     "input, user force field, and failing runs (garbage input, non-integral charge, bad option "
     "combination, missing file).  Invariant after every step: the bytes written (or the failure "
     "type and the absence of output) equal the pair's reference.  References come from FRESH "
-    "processes under PYTHONHASHSEED 0, 1, 2 and 'random'; all references of a pair must agree.  "
+    "processes under PYTHONHASHSEED 0..7 and 'random'; all references of a pair must agree.  "
     "fresh: Hypothesis-generated structures/options run A, B, A in-process and once in a fresh "
     "process with a random hash seed.  Non-trivial = history in which a pair is re-run after >= 1 "
     "different or failing run (A..B..A); fresh: always."
@@ -32,7 +32,7 @@ ASSUMPTIONS = [
     "log output is not part of the result (only the PQR file and the failure type)",
 ]
 
-HASHSEEDS = ["0", "1", "2", "random"]
+HASHSEEDS = ["0", "1", "2", "3", "4", "5", "6", "7", "random"]
 
 
 def _ch(cid, seq, start=1, hyd="none", oxt=True, k=0):
@@ -55,6 +55,12 @@ def pool():
     gap = dict(chains=[_ch("A", ["LYS", "ARG", "TYR", "GLY", "ASN", "GLU"], oxt=False)], waters=[])
     allh = dict(chains=[_ch("C", ["THR", "GLN", "PRO", "TRP"], hyd="all")], waters=[])
     na = dict(chains=[], na=[dict(id="N", dna=True, seq="ACGT", p5=True, newnames=True, start=1), dict(id="M", dna=False, seq="GU", p5=False, newnames=False, start=20)])
+    # a chain driven into a side-chain tip so that ALL hydrogens of the tip bump at once (the order in
+    # which conflicts are collected then decides which torsion is tried first)
+    for k, (seq, tgt) in enumerate(((["ALA", "LYS", "GLY"], 1), (["GLY", "LEU", "THR", "GLY"], 1), (["SER", "ARG", "MET"], 2))):
+        tipd = dict(chains=[_ch("A", seq, k=k), dict(_ch("B", ["GLY", "ALA"], k=2), contact=dict(target=tgt, dir=[0.1, 0.05, 0.02], gap=1.3 + 0.2 * k, tip=True))],
+                    waters=[])
+        out.append((f"tip-clash-{k}", pdb(tipd), "pdb", [f"--ff={['AMBER', 'PARSE', 'CHARMM'][k]}"], {}))
     out.append(("pep-amber", pdb(pep), "pdb", ["--ff=AMBER"], {}))
     out.append(("pep-parse-ws", pdb(pep), "pdb", ["--ff=PARSE", "--whitespace"], {}))
     out.append(("two-charmm", pdb(two), "pdb", ["--ff=CHARMM"], {}))
@@ -327,6 +333,13 @@ def machine(tier):
 @st.composite
 def fresh_case(draw):
     desc = draw(e2e.structure(max_chains=2, nmax=5, contact=True, waters=True, variants=0.2))
+    if len(desc["chains"]) < 2:
+        desc["chains"].append(draw(strat.chain(cid="Q", nmin=1, nmax=3, variants=0)))
+    # a second chain driven into a side-chain tip: several added hydrogens bump at once, which is
+    # where the order of conflict lists / candidate sets decides the outcome
+    if draw(st.integers(0, 2)) > 0:
+        desc["chains"][1].pop("shift", None)
+        desc["chains"][1]["contact"] = draw(strat.contact(tip=True))
     return dict(part="fresh", desc=desc, ff=draw(st.sampled_from(strat.FFS)),
                 opts=draw(st.sampled_from([[], [], ["--noopt"], ["--nodebump"], ["--whitespace", "--keep-chain"]])),
                 other=draw(st.integers(0, 10**6)))  # fmt: skip
@@ -344,6 +357,12 @@ def check_fresh(case):
     run_inproc(o[1], o[2], o[3], o[4])
     a2 = run_inproc(text, "pdb", opts, {})
     f = run_fresh(text, "pdb", opts, {}, "random")
+    for hs in ("1", "2", "3"):
+        f2 = run_fresh(text, "pdb", opts, {}, hs)
+        if not _same(f, f2):
+            res.bad("C11:hash-seed-dependent", f"generated input: fresh processes disagree between a random hash seed and "
+                    f"PYTHONHASHSEED={hs} ({case['ff']} {case['opts']})")  # fmt: skip
+            break
     if not _same(a1, a2):
         res.bad("C11:history-dependent", f"generated input: result changes after running pair {o[0]} in between ({case['ff']} {case['opts']})")
     if not _same(a1, f):
@@ -359,7 +378,7 @@ def parts(tier):
         Part("hashseeds", check_refs, cases=refs_cases, exhaustive=False, shards=4),
         Part("history", check_history, machine=machine, budget=dict(quick=160, thorough=1600),
              machine_steps=dict(quick=10, thorough=24), shrink_key="ops"),  # fmt: skip
-        Part("fresh", check_fresh, strategy=fresh_case(), budget=dict(quick=48, thorough=600)),
+        Part("fresh", check_fresh, strategy=fresh_case(), budget=dict(quick=64, thorough=800)),
     ]
 
 
